@@ -506,6 +506,32 @@ decreasing_by
 
 def splitWs (r : Rep) : Option (List Rep) := splitWsLoop r 0
 
+/-! `split(sep, out)` / `split(out)` with the output array given by the caller (repaired, 42a2190): the pieces are collected
+in a local array while `*this` and `sep` are still alive, then `out.clear(); out.append(parts)` — `append` resizes `out`
+(default-constructed Strings) and assigns element by element.  The string being split, or the separator, may be an
+element `out[k]` of the output array: it is fetched before anything is destroyed.  `…Unrepaired` is the order of the code
+before the repair (`out.clear()` first), where an element of `out` no longer exists when it is read (`none`). -/
+
+/-- `out.clear(); out.append(parts)` -/
+def fillArray (parts : List Rep) : Option (List Rep) := parts.mapM fun p => empty.assign (.ext p.toList)
+
+/-- `out[k].split(sep, out)` -/
+def splitElem (out : List Rep) (k : Nat) (sep : Bytes) : Option (List Rep) :=
+  (out[k]?).bind fun self => (self.split sep).bind fillArray
+
+/-- `s.split(out[k], out)` — the separator is an element of the output array -/
+def splitSepElem (r : Rep) (out : List Rep) (k : Nat) : Option (List Rep) :=
+  (out[k]?).bind fun sepR => (r.split sepR.toList).bind fillArray
+
+/-- `out[k].split(out)` (blanks) -/
+def splitWsElem (out : List Rep) (k : Nat) : Option (List Rep) :=
+  (out[k]?).bind fun self => self.splitWs.bind fillArray
+
+/-- before the repair: `out.clear()` ran first, so `out[k]` was read after its destruction -/
+def splitElemUnrepaired (out : List Rep) (k : Nat) (sep : Bytes) : Option (List Rep) :=
+  let cleared : List Rep := out.take 0
+  (cleared[k]?).bind fun self => (self.split sep).bind fillArray
+
 /-- `Array<String>::join(sep)`: `if (n == 0) return ""; String s = a[0]; for (i = 1..) { s += sep; String v = a[i]; s += v; }` -/
 def joinLoop (sep : Rep) (acc : Rep) : List Rep → Option Rep
   | [] => some acc
